@@ -937,8 +937,8 @@ class HistogramBase(abc.ABC):
         return new
 
     def __radd__(self, other):
-        if other == 0:  # Enable sum()
-            return self
+        if np.isscalar(other) and other == 0:  # Enable sum() (its start value, not any array of zeros)
+            return self.copy()
         return self + other
 
     def __iadd__(self, other):
